@@ -13,7 +13,7 @@ pub fn run_case(case: &Case) -> Report {
         "det" => det(case, &mut rep),
         "total" => total(case, &mut rep),
         "scaling" => scaling(case, &mut rep),
-        "refine" | "defplace" => crate::c12::judge(case, &mut rep),
+        "refine" | "defplace" | "split" => crate::c12::judge(case, &mut rep),
         k if k.starts_with("diag") => crate::c14::judge(case, &mut rep),
         other => {
             rep.notes.insert(format!("unknown case kind {other}"));
@@ -55,7 +55,14 @@ fn det(case: &Case, rep: &mut Report) {
     let mut orders = std::collections::BTreeMap::new();
     let mut scenario = 0u64;
     for (ei, ex) in case.execs.iter().enumerate() {
+        let reads_before = crate::clock::TASK_READS.load(std::sync::atomic::Ordering::Relaxed);
         let res = run_exec(ex, &case.fss);
+        let reads = crate::clock::TASK_READS.load(std::sync::atomic::Ordering::Relaxed) - reads_before;
+        rep.count("executions_under_simulated_clock_and_environment", 1);
+        if reads > 0 {
+            // (not a violation in itself: only a result that depends on it is)
+            rep.count("clock_reads_by_task_threads", reads);
+        }
         rep.history_digests.insert(res.history_digest);
         if ex.threads.len() > 1 {
             rep.interleavings.insert(fnv64(format!("{:?}", res.schedule).as_bytes()));
